@@ -58,14 +58,17 @@ func (t *tree) doRemove(
 	bitDepth node.Depth,
 	key node.Key,
 ) (*node.Pointer, bool, []byte, error) {
+	// NOTE: In case of errors the passed pointer is returned unchanged as the caller assigns the
+	//       returned pointer to the corresponding child of its internal node. Returning nil would
+	//       detach the whole subtree from an otherwise untouched node.
 	if ctx.Err() != nil {
-		return nil, false, nil, ctx.Err()
+		return ptr, false, nil, ctx.Err()
 	}
 
 	// Dereference the node, possibly making a remote request.
 	nd, err := t.cache.derefNodePtr(ctx, ptr, t.newFetcherSyncGet(key, true))
 	if err != nil {
-		return nil, false, nil, err
+		return ptr, false, nil, err
 	}
 
 	switch n := nd.(type) {
@@ -90,7 +93,7 @@ func (t *tree) doRemove(
 			n.Left, changed, existing, err = t.doRemove(ctx, n.Left, bitLength, key)
 		}
 		if err != nil {
-			return nil, false, existing, err
+			return ptr, false, existing, err
 		}
 
 		// Fetch and check the remaining children.
@@ -101,11 +104,11 @@ func (t *tree) doRemove(
 		}
 		remainingLeft, err := t.cache.derefNodePtr(ctx, n.Left, t.newFetcherSyncGet(key, true))
 		if err != nil {
-			return nil, false, nil, err
+			return ptr, false, nil, err
 		}
 		remainingRight, err := t.cache.derefNodePtr(ctx, n.Right, t.newFetcherSyncGet(key, true))
 		if err != nil {
-			return nil, false, nil, err
+			return ptr, false, nil, err
 		}
 
 		// If exactly one child including LeafNode remains, collapse it.
